@@ -158,20 +158,17 @@ func New(startTime time.Time, logLevel slog.Level) *Handler {
 	// Galileo keeps GPS time.
 	startOfGalileoWeek := startOfGPSWeek
 
-	// Set the stored timestamps to match the start time.
-	timestampFromPreviousGPSMessage := (uint(startTime.Sub(startOfGPSWeek).Milliseconds()))
-	timestampFromPreviousGalileoMessage := timestampFromPreviousGPSMessage
-	timestampFromPreviousBeidouMessage := (uint(startTime.Sub(startOfBeidouWeek).Milliseconds()))
+	// The stored timestamps (and the stored Glonass day) start at zero.  The
+	// start time only says which week the first observation is in - it can be
+	// any time during that week, before or after the first observation - so
+	// the first timestamp of each constellation must never look like a rollover.
 
 	handler := Handler{
-		startOfGPSWeek:                      startOfGPSWeek,
-		startOfGalileoWeek:                  startOfGalileoWeek,
-		startOfBeidouWeek:                   startOfBeidouWeek,
-		startOfGlonassWeek:                  startOfGlonassWeek,
-		timestampFromPreviousGPSMessage:     timestampFromPreviousGPSMessage,
-		timestampFromPreviousGalileoMessage: timestampFromPreviousGalileoMessage,
-		timestampFromPreviousBeidouMessage:  timestampFromPreviousBeidouMessage,
-		logLevel:                            level,
+		startOfGPSWeek:     startOfGPSWeek,
+		startOfGalileoWeek: startOfGalileoWeek,
+		startOfBeidouWeek:  startOfBeidouWeek,
+		startOfGlonassWeek: startOfGlonassWeek,
+		logLevel:           level,
 	}
 
 	return &handler
